@@ -167,6 +167,19 @@ func zzU8() []zzTxDef { // P pays the wallet and a stranger; R spends the strang
 	}
 }
 
+func zzU9() []zzTxDef { // two conflicting unconfirmed spenders of one credit: B spends A:0; B' spends A:0 and A:1; M spends A:1
+	return []zzTxDef{
+		{name: "A", ins: []zzIn{{-1, 0}}, nOuts: 2, credits: []int{0, 1}, change: []bool{false, false}},
+		{name: "B", ins: []zzIn{{0, 0}}, nOuts: 1, credits: []int{0}, change: []bool{true}},
+		{name: "B'", ins: []zzIn{{0, 0}, {0, 1}}, nOuts: 1, credits: []int{0}, change: []bool{true}},
+		{name: "M", ins: []zzIn{{0, 1}}, nOuts: 1, credits: []int{0}, change: []bool{false}},
+	}
+}
+
+// zzU9Preamble: A confirmed, then B and its conflicting replacement B' both
+// seen unconfirmed (event codes of pick: see(t)=t, mineNew(t)=n+t).
+func zzU9Preamble() []int { return []int{4 + 0, 1, 2} }
+
 func zzU1z() []zzTxDef { // U1 whose first transaction may carry zero-value credits
 	d := zzU1()
 	d[0].zeroOK = true
@@ -385,6 +398,7 @@ func (c *zzClock) TickAfter(time.Duration) <-chan time.Time { return nil }
 var zzNS = []byte("wtxmgr")
 
 type zzWorld struct {
+	forced []int // event codes of a fixed preamble, consumed by pick
 	db     *memdb.DB
 	store  *Store
 	clock  *zzClock
@@ -476,7 +490,13 @@ func (w *zzWorld) pick(allowRepeat bool) *zzEvent {
 	if allowRepeat {
 		nEv++
 	}
-	c := verifrt.Choice(nEv, "event")
+	var c int
+	if len(w.forced) > 0 {
+		// a fixed preamble of the history (the entry point says which)
+		c, w.forced = w.forced[0], w.forced[1:]
+	} else {
+		c = verifrt.Choice(nEv, "event")
+	}
 	switch {
 	case c < n:
 		t := c
